@@ -204,6 +204,14 @@ class SetInterp(object):
                 r = self.model(self, e)
                 if r is not None:
                     return wrap(r)
+            if self.fold is not None:
+                # a module-level constant holding a collection of known elements (_RESERVED = frozenset(['next', 'context']))
+                v = self.fold(e)
+                if isinstance(v, (set, frozenset, tuple, list)) and all(isinstance(x, str) and repr(x) in self.elems for x in v):
+                    m = 0
+                    for x in v:
+                        m |= self.elems[repr(x)]
+                    return SV(m)
             raise Unmodelled('unbound name %s in set expression' % e.id)
         if self.model is not None and isinstance(e, (ast.Call, ast.Attribute, ast.Subscript)):
             r = self.model(self, e)
